@@ -2303,6 +2303,20 @@ func (x *fnExec) binop(s *State, b *ssa.BinOp) Value {
 		}
 		return in.unknownOf(t, "divrem", false)
 	case token.AND:
+		if rIsC && rc == 1 && !nonneg(llo) {
+			// parity of a possibly negative value (two's complement): x = 2*half + (x&1)
+			a := in.Atoms.Struct(fmt.Sprintf("and(%s,1)", l.String()), 0, 1, l)
+			k := in.Atoms.Struct(fmt.Sprintf("half(%s)", l.String()), NegInf, PosInf, l)
+			eq := l.Sub(AtomLin(k).Scale(2)).Sub(AtomLin(a))
+			if len(a.Defs) == 0 {
+				a.Defs = []Lin{eq, eq.Neg()}
+				k.Defs = []Lin{eq, eq.Neg()}
+			}
+			// also as state facts, so that the relation is found starting from the atoms of x
+			s.h.addFact(eq)
+			s.h.addFact(eq.Neg())
+			return IntV{AtomLin(a)}
+		}
 		if rIsC && rc >= 0 && nonneg(llo) {
 			// x & (2^k-1) where x < 2^k: identity
 			if lhi <= rc && isMask(rc) {
